@@ -216,10 +216,12 @@ class Peer(object):
             self.send_response(conn, 404, "Not Found", b"no such thing")
             return True
         if sym == "5xx-len":
-            self.send_response(conn, 500, "Internal Server Error", b'{"oops": true}')
+            # an error page that is not UTF-8, as a gateway would send it
+            self.send_response(conn, 500, "Internal Server Error", b"<h1>Erreur interne \xe9\xff\xfe</h1>")
             return True
         if sym == "5xx-nolen-close":
-            self.send_response(conn, 503, "Service Unavailable", b"overloaded", length=False)
+            # neither a reason phrase nor a registered status code
+            conn.sendall(b"HTTP/1.1 599\r\nContent-Type: text/plain\r\n\r\noverloaded")
             return False
         if sym == "bodiless":
             self.send_response(conn, 204, "No Content", b"", length=False)
@@ -228,6 +230,16 @@ class Peer(object):
             # a status with neither body nor length, and the peer keeps the connection open
             conn.sendall(b"HTTP/1.1 502 Bad Gateway\r\nContent-Type: text/plain\r\n\r\n")
             return True
+        if sym in ("big-truncated", "big-reset-mid-body"):
+            # a large reply cut after 1500 of 3000 declared bytes: the client has consumed at least one read block
+            full = b'{"jsonrpc": "2.0", "id": 1, "result": "' + b"S" * 2950 + b'"}'
+            head = "HTTP/1.1 200 OK\r\nContent-Type: application/json-rpc\r\nContent-Length: %d\r\n\r\n" % len(full)
+            conn.sendall(head.encode() + full[:1500])
+            s.sleep(1.0)  # let the client read what was sent
+            if sym == "big-reset-mid-body":
+                conn._ep.peer.reset = True
+                s.wake_all(conn._ep.peer.waiters)
+            return False
         if sym == "truncated":
             full = body or b'{"jsonrpc": "2.0", "id": 1, "result": "x"}'
             head = "HTTP/1.1 200 OK\r\nContent-Type: application/json-rpc\r\nContent-Length: %d\r\n\r\n" % len(full)
